@@ -49,7 +49,7 @@ BREAK = [
     ("sign-lmi", ["C01"], P, "constraints_combination -= np.sum(psd_matrix.eval_dual() * psd_matrix.matrix_of_expressions)", "constraints_combination += np.sum(psd_matrix.eval_dual() * psd_matrix.matrix_of_expressions)", "R-SIGN"),
     ("dual-returns-primal", ["C01", "C14"], P, '        if return_primal_or_dual == "dual":\n            return dual_objective', '        if return_primal_or_dual == "dual":\n            return wc_value', "R-RET"),
     ("class-lmi-unsymmetrised", ["C01"], "PEPit/operators/symmetric_linear.py", "PSDMatrix(matrix_of_expressions=(T + T.T) / 2)", "PSDMatrix(matrix_of_expressions=T)", "R-LMIDUAL"),
-    ("mosek-dual-sign", ["C01", "C11"], MK, "dual_values.append(-self._get_Gram_from_mosek(self.task.getbarsj(mosek.soltype.itr, counter_psd),", "dual_values.append(self._get_Gram_from_mosek(self.task.getbarsj(mosek.soltype.itr, counter_psd),", "R-SIGN"),
+    ("mosek-dual-sign", ["C01", "C11"], MK, "dual_values.append(-self._get_Gram_from_mosek(self.task.getbarsj(mosek.soltype.itr, counter_psd),", "dual_values.append(self._get_Gram_from_mosek(self.task.getbarsj(mosek.soltype.itr, counter_psd),", "R-MOSEKDUAL"),
     # ---- primal instance (C02)
     ("leaf-index-shift", ["C02"], P, "point._value = points_values[:, point.counter]\n        for expression", "point._value = points_values[:, point.counter - 1]\n        for expression", "R-LEAFREG"),
     ("expr-eval-double", ["C02"], EX, "value += weight * np.dot(point1.eval(), point2.eval())", "value += 2 * weight * np.dot(point1.eval(), point2.eval())", "R-EVALSHAPE"),
@@ -66,9 +66,36 @@ BREAK = [
     ("dense-half-weight", ["C05"], TR, "                Gweights[point1.counter, point2.counter] = weight\n", "                Gweights[point1.counter, point2.counter] = weight / 2\n", "R-TRANSL"),
     ("sparse-no-halving", ["C05", "C11"], TR, "                    Gweights_val.append((weight + weight_sym) / 2)\n                    Gweights_indi.append(max(point1.counter, point2.counter))", "                    Gweights_val.append(weight + weight_sym)\n                    Gweights_indi.append(max(point1.counter, point2.counter))", "R-TRANSL"),
     ("sparse-upper-triangle", ["C05", "C11"], TR, "Gweights_indi.append(max(point1.counter, point2.counter))\n                    Gweights_indj.append(min(point1.counter, point2.counter))", "Gweights_indi.append(min(point1.counter, point2.counter))\n                    Gweights_indj.append(max(point1.counter, point2.counter))", "R-TRANSL"),
-    ("mosek-inequality-bound-sign", ["C05", "C11"], MK, "self.task.putconbound(nb_cons, mosek.boundkey.up, -inf, -alpha_val)", "self.task.putconbound(nb_cons, mosek.boundkey.up, -inf, alpha_val)", "R-SENSE"),
-    ("mosek-coupling-offdiag", ["C05", "C11"], MK, "-.5 * (i != j) - 1 * (i == j)", "-1 * (i != j) - 1 * (i == j)", "R-LMIENC"),
+    ("mosek-inequality-bound-sign", ["C05", "C11"], MK, "self.task.putconbound(nb_cons, mosek.boundkey.up, -inf, -alpha_val)", "self.task.putconbound(nb_cons, mosek.boundkey.up, -inf, alpha_val)", "R-MOSEKPROG"),
+    ("mosek-coupling-offdiag", ["C05", "C11"], MK, "-.5 * (i != j) - 1 * (i == j)", "-1 * (i != j) - 1 * (i == j)", "R-MOSEKPROG"),
     ("cvxpy-minimize", ["C05", "C11"], CV, "self.prob = cp.Problem(objective=cp.Maximize(cvxpy_objective)", "self.prob = cp.Problem(objective=cp.Minimize(cvxpy_objective)", "R-OBJSENSE"),
+    # ---- found by the mutation survey (tools/mutation_survey.py): MOSEK task programs, translators, declaration and return rules
+    ("mosek-scalar-counter-backwards", ["C01", "C11"], MK, "                counter_scalar += 1", "                counter_scalar -= 1", "R-MOSEKDUAL"),
+    ("mosek-psd-counter-stuck", ["C01", "C11"], MK, "                counter_psd += 1\n", "                pass\n", "R-MOSEKDUAL"),
+    ("mosek-residual-second-entry", ["C01", "C11"], MK, "residual = dual_values[0]", "residual = dual_values[1]", "R-MOSEKDUAL"),
+    ("mosek-optimize-dropped", ["C02", "C11"], MK, "        self.task.optimize(**kwargs)", "        pass", "R-SOLVECALL"),
+    ("cvxpy-solve-dropped", ["C02", "C11"], CV, "        self.prob.solve(**kwargs)", "        pass", "R-SOLVECALL"),
+    ("mosek-row-not-appended", ["C05", "C11"], MK, "                # add a constraint in mosek\n                self.task.appendcons(1)", "                # add a constraint in mosek\n                pass", "R-MOSEKPROG"),
+    ("mosek-lmi-coupling-dropped", ["C05", "C11"], MK, "                self.task.putbaraij(nb_cons, psd_matrix.counter + 1, [sym_A2], [1.0])", "                pass", "R-MOSEKPROG"),
+    ("mosek-heuristic-weight-rows", ["C11", "C14"], MK, "W_i = No_zero_ele[:, 0]", "W_i = No_zero_ele[:, 1]", "R-HEUROBJ"),
+    ("mosek-unpack-returns-nothing", ["C02", "C11"], MK, "                counter += 1\n        return G", "                counter += 1\n        return None", "R-TRILORDER"),
+    ("dense-leaf-sign", ["C05", "C11"], TR, "Fweights[expression.counter] += 1", "Fweights[expression.counter] -= 1", "R-TRANSLPROG"),
+    ("dense-symmetrisation-doubled", ["C05", "C11"], TR, "Gweights = (Gweights + Gweights.T) / 2", "Gweights = (Gweights + Gweights.T) * 2", "R-TRANSLPROG"),
+    ("sparse-leaf-weight-zero", ["C05", "C11"], TR, "        Fweights_val.append(1)", "        Fweights_val.append(0)", "R-TRANSLPROG"),
+    ("sparse-returns-lists", ["C05", "C11"], TR, "    Gweights_indi = np.array(Gweights_indi)\n", "", "R-TRANSLPROG"),
+    ("default-mode-primal", ["C01"], P, 'def solve(self, wrapper="cvxpy", return_primal_or_dual="dual"', 'def solve(self, wrapper="cvxpy", return_primal_or_dual="primal"', "R-RET"),
+    ("dual-constant-presence-flipped", ["C01"], P, "        if 1 in dual_objective_expression_decomposition_dict.keys():", "        if 1 not in dual_objective_expression_decomposition_dict.keys():", "R-RET"),
+    ("initial-condition-not-stored", ["C05"], P, "        # Call add_constraint method\n        self.add_constraint(constraint=condition)", "        # Call add_constraint method\n        pass", "R-DECLARE"),
+    ("remainder-skips-gradient-only-terms", ["C07"], F, "list_of_functions_which_need_something = tuple_of_lists_of_functions[1] + tuple_of_lists_of_functions[2]",
+     "list_of_functions_which_need_something = tuple_of_lists_of_functions[0] + tuple_of_lists_of_functions[2]", "R-WSUM"),
+    ("remainder-counter-backwards", ["C07"], F, "                        number_of_currently_computed_gradients_and_values += 1", "                        number_of_currently_computed_gradients_and_values -= 1", "R-WSUM"),
+    ("clip-when-nonnegative", ["C02"], P, "        if np.min(eig_val) < 0:", "        if not np.min(eig_val) < 0:", "R-LEAFREG"),
+    ("reader-returns-nothing", ["C17"], F, "        return tables_of_duals", "        return None", "R-READER"),
+    ("tables-never-stored", ["C17"], F, "        if table_of_constraints.shape != (0,):\n            df = pd.DataFrame(table_of_constraints, columns=point_names_2, index=point_names_1)",
+     "        if False:\n            df = pd.DataFrame(table_of_constraints, columns=point_names_2, index=point_names_1)", "R-ALIGN"),
+    ("block-table-diagonal-cell-dropped", ["C17"], "PEPit/functions/block_smooth_convex_function.py", "                        tables_of_constraints[k][i].append(0)", "                        pass", "R-ALIGN"),
+    ("expression-add-accepts-anything", ["C06"], EX, "        elif isinstance(other, int) or isinstance(other, float):\n            merged_decomposition_dict = merge_dict(self.decomposition_dict, {1: other})\n        # Raise an Exception in any other scenario",
+     "        elif True:\n            merged_decomposition_dict = merge_dict(self.decomposition_dict, {1: other})\n        # Raise an Exception in any other scenario", "R-OPSEM"),
     # ---- algebra (C06)
     ("merge-aliases-operand", ["C06"], DO, "merged_dict = dict1.copy()", "merged_dict = dict1", "R-"),
     ("prune-positive-only", ["C06"], DO, "if my_dict[key] != 0:", "if my_dict[key] > 0:", "R-DICTOPS"),
@@ -131,6 +158,9 @@ BREAK = [
 
 # behaviour-preserving edits: (id, file, old, new) -- every check must stay silent
 BENIGN = [
+    ("dense-no-symmetrisation", TR, "    Gweights = (Gweights + Gweights.T) / 2\n", ""),
+    ("sparse-mirror-absent-minus-zero", TR, "                    Gweights_val.append((weight + weight_sym) / 2)\n                    Gweights_indi.append(max(", "                    Gweights_val.append((weight - weight_sym) / 2)\n                    Gweights_indi.append(max("),
+    ("mosek-row-index-minus-zeros", MK, "self.task.putaijlist(nb_cons + np.zeros(a_i.shape, dtype=np.int8), a_i, a_val)\n\n        if track:", "self.task.putaijlist(nb_cons - np.zeros(a_i.shape, dtype=np.int8), a_i, a_val)\n\n        if track:"),
     ("convex-expanded", "PEPit/functions/convex_function.py", "constraint = (fi - fj >= gj * (xi - xj))", "constraint = (fi >= fj + gj * xi - gj * xj)"),
     ("strongly-convex-rescaled", "PEPit/functions/strongly_convex_function.py", "self.mu / 2 * (xi - xj) ** 2", "(xi - xj) ** 2 * self.mu * 0.5"),
     ("monotone-times-two", "PEPit/operators/monotone.py", "constraint = ((gi - gj) * (xi - xj) >= 0)", "constraint = (2 * (gi - gj) * (xi - xj) >= 0)"),
